@@ -4,7 +4,7 @@ import vt
 
 LEVEL = "model_checking"
 BUILDS = [(("drv_c07", ["drv_c07.cpp"]), {})]
-ACTIONS = ("GridCase", "RefStep", "Default", "Icdf", "IcdfTop", "Point", "ZeroIter", "PointHD")
+ACTIONS = ("GridCase", "RefStep", "Default", "Icdf", "IcdfTop", "Point", "ZeroIter", "PointHD", "NextGrid")
 
 
 def run(chk, replay=None):
